@@ -26,6 +26,7 @@ RULE = (
     'column, or what that sum itself reduces to when it has one block). non-trivial = arity 1, nesting depth >= 2, '
     'a pytree-valued block, or a product.'
     ' Also: block operators with 9-17 blocks; an ill-formed block row whose well-formed twin (same container, classes, static fields and input structures) is constructed first; every single block operator is applied twice to host (NumPy) input leaves, one array object standing for every leaf it fits (acceptance of host arrays is not judged, values are).'
+    ' Also: 9-17 blocks of one class (selections, reshapes, move-axes) with different outputs on one input structure.'
 )
 ASSUMPTIONS = [
     'sizes <= ~48 elements; lazy CG inverses inside block diagonals only of SPD blocks with condition number <= ~25',
